@@ -94,7 +94,7 @@ Section Return.
   Lemma wrap_failure_data k t p : e_data (wrap_failure k t p) = crypt_data k (e_data p).
   Proof.
     unfold OnionFail.wrap_failure, OnionFail.process_failure_packet, OnionFail.crypt_failure_packet.
-    cbn [e_data]. destruct (_ <? _)%Z; reflexivity.
+    cbn [e_data]. destruct (keeps_attribution _); reflexivity.
   Qed.
 
   Lemma build_failure_packet_data k code d t :
